@@ -55,7 +55,7 @@ Theorem C12_refuted_sym_two_units : ~ C12_sym_statement /\
   veq (VNum turn_254 true) (VNum deg_9144 true) = true /\ veq (VNum deg_9144 true) (VNum turn_254 true) = false.
 Proof.
   split; [|exact refuted_sym_two_units]. intros H. specialize (H (VNum turn_254 true) (VNum deg_9144 true)).
-  destruct refuted_sym_two_units as [E1 E2]. rewrite E1, E2 in H. discriminate.
+  destruct refuted_sym_two_units as [E1 E2]. rewrite E1, E2 in H. clear E1 E2. exact (Bool.diff_true_false H).
 Qed.
 Print Assumptions C12_refuted_sym_two_units.
 
